@@ -311,7 +311,7 @@ fn generate_joins(pid: &str, tier: Tier, rng: &mut Rng, emit: &mut dyn FnMut(Str
     let widths: Vec<u32> = match (pid, quick) {
         ("C19", _) => vec![1],
         (_, true) => vec![2, 3, 4, 5],
-        (_, false) => vec![2, 3, 4, 5, 7],
+        (_, false) => vec![2, 3, 5, 7],
     };
     let (lx, ly): (Vec<i32>, Vec<i32>) = if quick {
         (LAT_X.to_vec(), LAT_Y.to_vec())
@@ -352,7 +352,7 @@ fn generate_joins(pid: &str, tier: Tier, rng: &mut Rng, emit: &mut dyn FnMut(Str
     }
     // a sample of 4- and 5-vertex ones: arbitrary, closed-looking (last = first), self-overlapping
     // (going back over a segment), zigzags
-    let nsample = if quick { 1200 } else { 20_000 };
+    let nsample = if quick { 1200 } else { 12_000 };
     for i in 0..nsample {
         let n = if i % 4 == 3 { 5 } else { 4 };
         let mut vs: Vec<(i32, i32)> = (0..n).map(|_| *rng.pick(&lat)).collect();
@@ -389,7 +389,7 @@ fn generate_joins(pid: &str, tier: Tier, rng: &mut Rng, emit: &mut dyn FnMut(Str
     }
     generate_triangles(pid, tier, rng, emit);
     // seeded random polylines within +-60
-    let nrand = if quick { 400 } else { 20_000 };
+    let nrand = if quick { 400 } else { 4000 };
     for _ in 0..nrand {
         let n = rng.range(2, 6) as usize;
         let vs: Vec<(i32, i32)> = (0..n).map(|_| (rng.range(-60, 60) as i32, rng.range(-60, 60) as i32)).collect();
@@ -880,7 +880,7 @@ fn generate_triangles(pid: &str, tier: Tier, rng: &mut Rng, emit: &mut dyn FnMut
     let widths: Vec<u32> = match (pid, quick) {
         ("C19", _) => vec![1],
         (_, true) => vec![1, 2, 3, 4],
-        (_, false) => vec![0, 1, 2, 3, 4, 5, 7],
+        (_, false) => vec![0, 1, 2, 3, 5],
     };
     let (lx, ly): (Vec<i32>, Vec<i32>) = if quick { (vec![-3, -1, 0, 4], vec![-4, 0, 1, 3]) } else { (vec![-5, -3, -1, 0, 4], vec![-6, -4, 0, 1, 3]) };
     let mut lat: Vec<(i32, i32)> = Vec::new();
@@ -903,7 +903,8 @@ fn generate_triangles(pid: &str, tier: Tier, rng: &mut Rng, emit: &mut dyn FnMut
             }
         }
     }
-    let nrand = if quick { 400 } else { 20_000 };
+    // (the model walks every outline line once per row: ~8 ms per random op)
+    let nrand = if quick { 400 } else { 4000 };
     for _ in 0..nrand {
         let mut p = || (rng.range(-60, 60) as i32, rng.range(-60, 60) as i32);
         let v = [p(), p(), p()];
